@@ -3,6 +3,7 @@ package c18
 
 import (
 	"fmt"
+	"slices"
 	"strconv"
 	"strings"
 	"sync"
@@ -22,7 +23,12 @@ const Rule = "cases = (component, block size, op sequence) drawn from VERIF_SEED
 	"empty) and refilled, with Size/Peek/IsEmpty/Contains (oldest, newest, just removed, not yet added, the values " +
 	"at positions t-1, t, t+1 of every threshold and block boundary) and, for the soft queue, Values at every " +
 	"threshold of size, of values ever added and of values removed; the same without Contains on structures created with a " +
-	"nil equal function (header eq=nil; the library creates its own stacks and queues that way); the soft queue at 65537 values is judged by " +
+	"nil equal function (header eq=nil; the library creates its own stacks and queues that way); every block size 1-200 with a little over " +
+	"two blocks; block size 4096 (Huge(): also 4095, 4097, 8192 and, oracle only, 65536) with two and three blocks in use, emptied exactly at / " +
+	"one before / one after a block end, then Contains of the first and last values added, Peek, Size before anything is added again (fam=bigblock); " +
+	"element types other than int (header elem=string|struct|ptr|slice|sbox|any: string, a struct, a fresh pointer per value compared by pointee, " +
+	"[]int with slices.Equal, a struct holding a slice, any holding int/string/[]int/such a struct by turns; each element is mapped to the integer " +
+	"it stands for in the output, so the lines are those of the Model) on sweeps and random histories (fam=typed); the soft queue at 65537 values is judged by " +
 	"the Go oracle only (the Model's append-to-a-List Enqueue is quadratic), counted as oracle_only_cases; " +
 	"non-trivial = the history crossed a block boundary at least once in " +
 	"each direction or drained to empty and refilled; distinct = distinct (header, op list)"
@@ -80,6 +86,84 @@ func Exec(c hx.Case) hx.Result {
 // execCase runs one case on the real list package and on a slice oracle; before every operation it publishes
 // what it has so far.
 func execCase(c hx.Case, pub *published) hx.Result {
+	switch hx.HeaderGet(c.Header, "elem") {
+	case "", "int":
+		return runTyped(c, pub, codec[int]{enc: func(v int) int { return v }, dec: func(v int) int { return v }, eq: eq})
+	case "string":
+		return runTyped(c, pub, codec[string]{enc: strconv.Itoa, dec: func(t string) int { v, _ := strconv.Atoi(t); return v },
+			eq: func(a, b string) bool { return a == b }})
+	case "struct":
+		return runTyped(c, pub, codec[rec]{enc: func(v int) rec { return rec{K: v, Name: "v" + strconv.Itoa(v)} }, dec: func(t rec) int { return t.K },
+			eq: func(a, b rec) bool { return a.K == b.K }})
+	case "ptr": // a new pointer for every value handed in: equal pointees, different pointers
+		return runTyped(c, pub, codec[*int]{enc: func(v int) *int { p := new(int); *p = v; return p }, dec: func(t *int) int { return *t },
+			eq: func(a, b *int) bool { return a == b || (a != nil && b != nil && *a == *b) }})
+	case "slice": // not comparable with ==
+		return runTyped(c, pub, codec[[]int]{enc: func(v int) []int { return []int{v, -v} }, dec: func(t []int) int { return t[0] }, eq: slices.Equal[[]int]})
+	case "sbox": // a struct with a slice inside: not comparable either
+		return runTyped(c, pub, codec[sbox]{enc: func(v int) sbox { return sbox{id: []int{v}, tag: "s"} }, dec: func(t sbox) int { return t.id[0] },
+			eq: func(a, b sbox) bool { return slices.Equal(a.id, b.id) }})
+	case "any": // dynamic types int, string, []int, sbox by the value's residue
+		return runTyped(c, pub, codec[any]{enc: encAny, dec: func(t any) int { v, _ := decAny(t); return v },
+			eq: func(a, b any) bool { x, okx := decAny(a); y, oky := decAny(b); return okx && oky && x == y }})
+	}
+	res := hx.Result{BadOp: -1}
+	for range c.Ops {
+		res.Outs = append(res.Outs, "bad-case")
+	}
+	return res
+}
+
+// codec: how the integers of the line protocol travel through a container of element type T (header elem=…);
+// equal(enc(a), enc(b)) iff a == b, so the Model (generic, run on Int) gives the same output lines.
+type codec[T any] struct {
+	enc func(int) T
+	dec func(T) int
+	eq  func(a, b T) bool
+}
+
+type rec struct {
+	K    int
+	Name string
+}
+
+type sbox struct {
+	id  []int
+	tag string
+}
+
+func encAny(v int) any {
+	switch ((v % 4) + 4) % 4 {
+	case 0:
+		return v
+	case 1:
+		return strconv.Itoa(v)
+	case 2:
+		return []int{v}
+	}
+	return sbox{id: []int{v}}
+}
+
+func decAny(t any) (int, bool) {
+	switch x := t.(type) {
+	case int:
+		return x, true
+	case string:
+		v, err := strconv.Atoi(x)
+		return v, err == nil
+	case []int:
+		if len(x) == 1 {
+			return x[0], true
+		}
+	case sbox:
+		if len(x.id) == 1 {
+			return x.id[0], true
+		}
+	}
+	return 0, false
+}
+
+func runTyped[T any](c hx.Case, pub *published, cd codec[T]) hx.Result {
 	comp := hx.HeaderGet(c.Header, "comp")
 	block, _ := strconv.Atoi(hx.HeaderGet(c.Header, "block"))
 	if block < 1 {
@@ -104,7 +188,10 @@ func execCase(c hx.Case, pub *published) hx.Result {
 	ever := 0 // values ever added
 	// eq=nil: no equal function (the library itself creates its stacks and queues that way where it never calls
 	// Contains); such a case has no contains op
-	eqf := eq
+	eqf := cd.eq
+	if el := hx.HeaderGet(c.Header, "elem"); el != "" {
+		tags["elem="+el] = true
+	}
 	if hx.HeaderGet(c.Header, "eq") == "nil" {
 		eqf = nil
 		tags["equal=nil"] = true
@@ -112,12 +199,18 @@ func execCase(c hx.Case, pub *published) hx.Result {
 
 	switch comp {
 	case "queue", "stack":
-		var q list.Queue[int]
-		var s list.Stack[int]
+		var q list.Queue[T]
+		var s list.Stack[T]
 		if comp == "queue" {
-			q = list.NewQueue[int](block, eqf)
+			q = list.NewQueue[T](block, eqf)
 		} else {
-			s = list.NewStack[int](block, eqf)
+			s = list.NewStack[T](block, eqf)
+		}
+		decOK := func(t T, ok bool) (int, bool) {
+			if !ok {
+				return 0, false
+			}
+			return cd.dec(t), true
 		}
 		for i, op := range c.Ops {
 			publish()
@@ -128,9 +221,9 @@ func execCase(c hx.Case, pub *published) hx.Result {
 				case "enq", "push":
 					v, _ := strconv.Atoi(f[1])
 					if comp == "queue" {
-						q.Enqueue(v)
+						q.Enqueue(cd.enc(v))
 					} else {
-						s.Push(v)
+						s.Push(cd.enc(v))
 					}
 					if emptied && len(model) == 0 {
 						refilled = true
@@ -145,9 +238,9 @@ func execCase(c hx.Case, pub *published) hx.Result {
 					var v int
 					var ok bool
 					if comp == "queue" {
-						v, ok = q.Dequeue()
+						v, ok = decOK(q.Dequeue())
 					} else {
-						v, ok = s.Pop()
+						v, ok = decOK(s.Pop())
 					}
 					out = optInt(v, ok)
 					if len(model) == 0 {
@@ -172,9 +265,9 @@ func execCase(c hx.Case, pub *published) hx.Result {
 					var v int
 					var ok bool
 					if comp == "queue" {
-						v, ok = q.Peek()
+						v, ok = decOK(q.Peek())
 					} else {
-						v, ok = s.Peek()
+						v, ok = decOK(s.Peek())
 					}
 					out = optInt(v, ok)
 					if len(model) == 0 {
@@ -194,9 +287,9 @@ func execCase(c hx.Case, pub *published) hx.Result {
 					v, _ := strconv.Atoi(f[1])
 					var got bool
 					if comp == "queue" {
-						got = q.Contains(v)
+						got = q.Contains(cd.enc(v))
 					} else {
-						got = s.Contains(v)
+						got = s.Contains(cd.enc(v))
 					}
 					out = "ok " + strconv.FormatBool(got)
 					want := false
@@ -241,7 +334,13 @@ func execCase(c hx.Case, pub *published) hx.Result {
 			res.Outs = append(res.Outs, out)
 		}
 	case "soft":
-		q := list.NewSoftQueue[int](eqf)
+		q := list.NewSoftQueue[T](eqf)
+		decIdx := func(t T, idx int) (int, int) {
+			if idx < 0 {
+				return 0, idx
+			}
+			return cd.dec(t), idx
+		}
 		var all []int
 		front := 0
 		for i, op := range c.Ops {
@@ -252,7 +351,7 @@ func execCase(c hx.Case, pub *published) hx.Result {
 				switch f[0] {
 				case "enq":
 					v, _ := strconv.Atoi(f[1])
-					idx := q.Enqueue(v)
+					idx := q.Enqueue(cd.enc(v))
 					out = "ok " + strconv.Itoa(idx)
 					if idx != len(all) {
 						bad(i, "enqueue returned index %d, want %d", idx, len(all))
@@ -261,9 +360,9 @@ func execCase(c hx.Case, pub *published) hx.Result {
 				case "deq", "peek":
 					var v, idx int
 					if f[0] == "deq" {
-						v, idx = q.Dequeue()
+						v, idx = decIdx(q.Dequeue())
 					} else {
-						v, idx = q.Peek()
+						v, idx = decIdx(q.Peek())
 					}
 					if idx >= 0 {
 						out = fmt.Sprintf("ok some %d %d", v, idx)
@@ -285,7 +384,7 @@ func execCase(c hx.Case, pub *published) hx.Result {
 					}
 				case "contains":
 					v, _ := strconv.Atoi(f[1])
-					got := q.Contains(v)
+					got := q.Contains(cd.enc(v))
 					out = "ok " + strconv.Itoa(got)
 					want := -1
 					for j, x := range all {
@@ -310,21 +409,23 @@ func execCase(c hx.Case, pub *published) hx.Result {
 						bad(i, "isempty = %v", e)
 					}
 				case "values":
-					vs := q.Values()
-					ss := make([]string, len(vs))
-					for j, v := range vs {
-						ss[j] = strconv.Itoa(v)
+					tvs := q.Values()
+					vs := make([]int, len(tvs))
+					ss := make([]string, len(tvs))
+					for j, t := range tvs {
+						vs[j] = cd.dec(t)
+						ss[j] = strconv.Itoa(vs[j])
 					}
 					out = "ok [" + strings.Join(ss, " ") + "]"
 					// The caller owns what Values() returns: scribbling on it (and appending to it) must not
 					// reach the queue. An implementation that hands out its own backing array is exposed by
 					// every later op of the case.
-					defer func(vs []int) {
-						for j := range vs {
-							vs[j] = -99
+					defer func(tvs []T) {
+						for j := range tvs {
+							tvs[j] = cd.enc(-99)
 						}
-						_ = append(vs, -98, -97)
-					}(vs)
+						_ = append(tvs, cd.enc(-98), cd.enc(-97))
+					}(tvs)
 					if len(vs) != len(all) {
 						bad(i, "values has %d entries, want %d", len(vs), len(all))
 					} else {
@@ -539,6 +640,12 @@ func (s *sweep) probe(values bool) {
 		at(b)
 		at(n - b - 1)
 		at(n - b)
+		// values added long ago (removed or not): the first ones, the ones a block back from the newest
+		for _, j := range []int{0, 1, b - 1, b, s.ever - b - 1, s.ever - b, s.ever - 1} {
+			if 0 <= j && j < s.ever {
+				cand(s.val(j))
+			}
+		}
 	} else {
 		// soft queue: positions count from the first value ever added
 		for _, t := range thresholds {
@@ -608,6 +715,8 @@ func withoutContains(c hx.Case) hx.Case {
 	return hx.Case{Header: c.Header + " eq=nil", Ops: ops}
 }
 
+var elemTypes = []string{"string", "struct", "ptr", "slice", "sbox", "any"}
+
 func distinct(i int) int { return i } // the first value is 0, Go's zero value of int: unused cells hold it too
 
 func periodic(p int) func(int) int { return func(i int) int { return i % p } }
@@ -653,6 +762,63 @@ func sweeps(run *hx.Run) {
 			run.Do(comp, newSweep(comp, 1024, periodic(1025)).history(65*1024+1, 0), Exec)
 			run.Do(comp, newSweep(comp, 256, distinct).history(257*256, 0), Exec)
 			run.Do(comp, newSweep(comp, 65, distinct).history(70000, 1), Exec)
+		}
+	}
+	// every block size from 1 to 200 (thresholds that are not powers of two): a little more than two blocks, emptied
+	// exactly at the block end (even sizes) or one value later
+	for _, comp := range []string{"queue", "stack"} {
+		for b := 1; b <= 200; b++ {
+			if b%2 == 0 {
+				run.Do(comp, newSweep(comp, b, distinct).history(2*b, 0), Exec)
+			} else {
+				run.Do(comp, newSweep(comp, b, distinct).history(2*b+1, 1), Exec)
+			}
+		}
+	}
+	// large blocks, two and three of them in use, emptied exactly at / one before / one after a block end, then
+	// Contains (of the values added first and last), Peek and Size before anything is added again
+	type bigCfg struct {
+		block   int
+		noModel bool
+	}
+	bigs := []bigCfg{{4096, false}}
+	if run.Huge() {
+		bigs = append(bigs, bigCfg{4095, false}, bigCfg{4097, false}, bigCfg{8192, false}, bigCfg{65536, true})
+	}
+	for _, comp := range []string{"queue", "stack"} {
+		for _, bg := range bigs {
+			for _, k := range []int{2, 3} {
+				if bg.block == 65536 && k == 3 {
+					continue
+				}
+				for _, d := range []int{0, -1, 1} {
+					if d != 0 && (k == 3 || bg.block > 4097) {
+						continue
+					}
+					c := newSweep(comp, bg.block, distinct).history(k*bg.block+d, 0)
+					c.Header = strings.Replace(c.Header, "fam=sweep", "fam=bigblock", 1)
+					c.NoModel = bg.noModel
+					run.Do(comp, c, Exec)
+				}
+			}
+		}
+	}
+	// element types other than int (header elem=…): string, a struct, a pointer (a new one per value), []int and a
+	// struct holding a slice (not comparable with ==), any holding int / string / []int / such a struct by turns
+	for _, el := range elemTypes {
+		for _, comp := range []string{"queue", "stack", "soft"} {
+			b := 3
+			if comp == "soft" {
+				b = 0
+			}
+			for k, c := range []hx.Case{newSweep(comp, b, distinct).history(17, 0), newSweep(comp, b, periodic(4)).history(23, 1),
+				newSweep(comp, b, extremes).history(9, 1)} {
+				if k == 2 && el == "string" { // as good as any
+					continue
+				}
+				c.Header = strings.Replace(c.Header, "fam=sweep", "fam=typed elem="+el, 1)
+				run.Do(comp, c, Exec)
+			}
 		}
 	}
 	// no equal function, no Contains
@@ -734,6 +900,14 @@ func Main(run *hx.Run) {
 			c := hx.Case{Header: fmt.Sprintf("comp=%s block=%d", comp, b), Ops: genOps(r, comp, length, 5)}
 			run.Do(comp, c, Exec)
 		}
+	}
+	// random histories over the other element types
+	rt := run.R.Fork("typed")
+	for k, n := 0, run.Scale(120); k < n; k++ {
+		comp := hx.Pick(rt, []string{"queue", "stack", "soft"})
+		c := hx.Case{Header: fmt.Sprintf("comp=%s block=%d fam=typed elem=%s", comp, hx.Pick(rt, []int{1, 2, 3, 5}), hx.Pick(rt, elemTypes)),
+			Ops: genOps(rt, comp, rt.Range(5, 60), 5)}
+		run.Do(comp, c, Exec)
 	}
 	// the threshold family comes after the short random histories: a change that breaks everyday behaviour is then
 	// reported (and shrunk) on a short history, and the long ones only speak up for what needs their size
